@@ -121,7 +121,7 @@ def canon_args(args):
 class System(object):
     ''' Two connected endpoints under the virtual GLib context. '''
 
-    def __init__(self, cfg_a=None, cfg_b=None, node_a='dtn://a/', node_b='dtn://b/'):
+    def __init__(self, cfg_a=None, cfg_b=None, node_a='dtn://a/', node_b='dtn://b/', addrs=None):
         GLib.CTX.reset()
         del dbus.service.EVENT_LOG[:]
         self.ctx = GLib.CTX
@@ -135,15 +135,16 @@ class System(object):
         bus = dbus.bus.BusConnection()
         for cfg in self.cfg.values():
             cfg._bus_conn = bus
-        sock_a = FakeSock('A', ('10.0.0.1', 40000))
-        sock_b = FakeSock('B', ('10.0.0.2', 4556))
+        (addr_a, addr_b) = [tuple(x) for x in (addrs or (('10.0.0.1', 40000), ('10.0.0.2', 4556)))]
+        sock_a = FakeSock('A', addr_a)
+        sock_b = FakeSock('B', addr_b)
         sock_a.peer = sock_b
         sock_b.peer = sock_a
         hdl_a = tcpcl.session.ContactHandler(
-            hdl_kwargs=dict(config=self.cfg['A'], sock=sock_a, toaddr=('10.0.0.2', 4556)),
+            hdl_kwargs=dict(config=self.cfg['A'], sock=sock_a, toaddr=addr_b),
             bus_kwargs=dict(conn=bus, object_path='/A'))
         hdl_b = tcpcl.session.ContactHandler(
-            hdl_kwargs=dict(config=self.cfg['B'], sock=sock_b, fromaddr=('10.0.0.1', 40000)),
+            hdl_kwargs=dict(config=self.cfg['B'], sock=sock_b, fromaddr=addr_a),
             bus_kwargs=dict(conn=bus, object_path='/B'))
         self.ep = {'A': Endpoint('A', hdl_a, sock_a), 'B': Endpoint('B', hdl_b, sock_b)}
         for endp in self.ep.values():
@@ -212,6 +213,8 @@ class System(object):
             call(hdl.close)
         elif kind == 'pop':
             call(hdl.recv_bundle_pop_data, str(oper[2]))
+        elif kind == 'params':
+            call(hdl.get_session_parameters)
         elif kind == 'txpump':
             # ('txpump', e, accept) or ('txpump', e, 'idle'|'io', accept)
             # the IO_OUT watch and the idle source are the same function
